@@ -325,6 +325,48 @@ PROPS = {
         level_text="Generated search over small degenerate paths with exact contract predicates. Exploration only.",
         level_note="trusts the predicates in prop_C20.cpp (exact __int128 / long double), g++, rapidcheck",
     ),
+    "C16": dict(
+        bins={"main": dict(tc="gcc", src="prop_C16.cpp", variants=["plain"])},
+        parts=[dict(name="pathsd", workers={Q: 16, T: 16}, cases={Q: 25000, T: 800000})],
+        rule=("cases = PathsD inputs whose coordinates are (k + f)/scale with |k| up to 2^40 and sub-grid fractions f including "
+              "exact +-0.5 ties, +-0.49999999 and random values, precision -8..8, all clip types, fill rules, join/end types, "
+              "options; nine entry points: ClipperD into paths (with open subjects) and into PolyTreeD, BooleanOp(PathsD), "
+              "InflatePaths(PathsD), RectClip(PathsD), RectClipLines(PathsD), MinkowskiSum/Diff(PathD), TrimCollinear(PathD). "
+              "Reference model in the harness: scale = 2^(ilogb(10^p)+1) for ClipperD and 10^p elsewhere, x -> llround(x*scale), "
+              "delta and arc tolerance multiplied by the scale, the Paths64 API, result divided by the scale. Oracle: same "
+              "number of paths and vertices in the same order, llround(result*scale) equals the integer result exactly and "
+              "|result - integer/scale| <= 4 ulp; PolyTreeD has the PolyTree64's shape node for node (level, child count, "
+              "IsHole). Non-trivial = an input coordinate that is not on the scaled grid and a non-empty result"),
+        assumptions=["scaled coordinates within +-2^52", "Minkowski PathD overloads probed with decimal places -4..4"],
+        technique="property-based testing (rapidcheck): differential against a harness-side scaling model around the integer API",
+        level_text="Generated differential search of every PathsD entry point against the integer API on scaled, rounded input. Exploration only.",
+        level_note="trusts the 10-line scaling model in prop_C16.cpp and the integer API itself (judged by C01-C09), g++, rapidcheck",
+    ),
+    "C17": dict(
+        bins={"main": dict(tc="asan", src="prop_C17.cpp", variants=["plain"]),
+              "mainz": dict(tc="asan", src="prop_C17.cpp", variants=["z"])},
+        parts=[
+            dict(name="roundtrip", bin="main", workers={Q: 4, T: 4}, cases={Q: 4000, T: 300000}),
+            dict(name="forward", bin="main", workers={Q: 5, T: 5}, cases={Q: 4000, T: 300000}),
+            dict(name="roundtrip_z", part="roundtrip", bin="mainz", workers={Q: 3, T: 3}, cases={Q: 4000, T: 300000}),
+            dict(name="forward_z", part="forward", bin="mainz", workers={Q: 4, T: 4}, cases={Q: 4000, T: 300000}),
+        ],
+        rule=("built twice (plain and USINGZ, both under ASan+UBSan). (roundtrip) random Paths64/PathsD incl. empty paths, empty "
+              "lists and Z values: CreateCPathsFromPathsT / CreateCPathsDFromPathsD / CreateCPathsDFromPaths64 are decoded by a "
+              "harness decoder written from the header's layout comment (array[0] must equal the elements consumed, array[1] the "
+              "path count, decoded == input minus empty paths); harness-encoded arrays allocated at EXACTLY the stated length "
+              "go through ConvertCPathsToPathsT / ConvertCPathsDToPaths64 / ConvertCPathToPathT / "
+              "ConvertCPathDToPath64WithScale (identity on non-empty paths; ASan flags any access outside the block); "
+              "CreateCPolyTree64/D arrays are walked by the decoder and must reproduce the tree. (forward) all 14 exported "
+              "functions with random valid arguments against the corresponding C++ call written in the harness (Clipper64 / "
+              "ClipperD with both options, ClipperOffset(miter_limit, arc_tolerance[*scale], false, reverse_solution), "
+              "RectClip64/RectClipLines64, MinkowskiSum/Diff): decoded results must be equal incl. Z. Non-trivial = "
+              "non-empty data (roundtrip) / a case where flipping a forwarded option changes the C++ result"),
+        assumptions=["the Z callbacks of the export layer stay unset", "D variants probed with precision -2..3"],
+        technique="property-based testing (rapidcheck) under ASan/UBSan: round-trip against an independent decoder + differential against the C++ API",
+        level_text="Generated round-trip and differential search for every exported function in both Z configurations, with exact-length buffers under ASan. Exploration only.",
+        level_note="trusts the decoder in cexport.hpp (written from the layout comment), ASan, clang, rapidcheck",
+    ),
     "C02": dict(
         bins={"main": dict(tc="gcc", src="prop_C02.cpp", variants=["plain"])},
         parts=[
